@@ -25,6 +25,7 @@ type c17case struct {
 	alpha       dyadic
 	rmgaps      bool
 	weights     []dyadic // nil = none
+	warm        bool     // the model object first serves another alignment (InitModel twice)
 }
 
 func (cs *c17case) run(names, seqs []string, weights []dyadic) (dist *mat.Dense, m *protdist.ProtDistModel, err error) {
@@ -42,6 +43,13 @@ func (cs *c17case) run(names, seqs []string, weights []dyadic) (dist *mat.Dense,
 	m, e = protdist.NewProtDistModel(cs.model, cs.modelfreqs, cs.gamma, cs.alpha.f(), cs.rmgaps)
 	if e != nil {
 		return nil, nil, e
+	}
+	if cs.warm {
+		if wa, we := mkAlign(align.AMINOACIDS, []string{"w0", "w1", "w2"}, []string{"ACDEFGHIKLWWYV", "ACDEFGHIKVWWYV", "ACDDFGHIKVWAYV"}); we == nil {
+			if m.InitModel(wa, nil) == nil {
+				m.MLDist(wa, nil)
+			}
+		}
 	}
 	if e = m.InitModel(al, ws); e != nil {
 		return nil, m, e
@@ -83,6 +91,7 @@ func c17(args []string) error {
 	stats := map[string]int{}
 	for i := 0; i < g.n; i++ {
 		cs := &c17case{}
+		cs.warm = r.Intn(4) == 0
 		nrows := 2 + r.Intn(3)
 		L := 6 + r.Intn(19)
 		anc := make([]byte, L)
@@ -352,9 +361,13 @@ func c17(args []string) error {
 						}
 					}
 					switch {
+					case near10 && ds <= 5e-4 && mlsig != "not-a-local-maximum":
+						// the absolute stopping tolerance (1e-6 between successive evaluations) on a tiny distance: the better
+						// probe at +-10 % is at most 5e-5 away
+						mlsig = "stopped-within-5e-5-of-a-better-distance"
 					case near10:
 						mlsig = "not-a-local-maximum"
-					case near1 && mlsig != "not-a-local-maximum":
+					case near1 && mlsig != "not-a-local-maximum" && mlsig != "stopped-within-5e-5-of-a-better-distance":
 						// a probe at +-1% is better but none at +-10%: the search stopped close to a maximum
 						mlsig = "stopped-within-10pct-of-a-maximum"
 					case far && mlsig == "none":
